@@ -43,12 +43,15 @@ Proof.
   intros Hp. unfold translate_status, theory_translate, tau_star_total.
   destruct (tau_star p) as [g|] eqn:Eg; [|discriminate].
   destruct (completion (rp_theory (task_m t) g) (ug_input_predicates (et_user_guide t))) as [th0|] eqn:Ec; [|discriminate].
-  set (th1 := th0 ++ missing_output_definitions (ug_output_predicates (et_user_guide t)) th0).
+  match goal with |- context [if _ then simplify_status fuel ?x else _] => set (th1 := x) end.
   assert (H1 : forall d, In d th1 -> psent d).
-  { apply (completion_missing_outputs_psent _ _ _ _) with (2 := Ec).
-    intros f Hf. unfold rp_theory in Hf. apply in_map_iff in Hf. destruct Hf as [f0 [<- Hf0]].
-    destruct (tau_star_psent p g Hp Eg f0 Hf0) as [A B]. split; [apply rp_formula_pi, A|].
-    apply closed_iff in B. unfold bn. rewrite rp_bn. apply B. }
+  { intros d Hd. unfold th1 in Hd. apply in_app_or in Hd. destruct Hd as [Hd|Hd].
+    - revert d Hd. apply (completion_psent _ _ _) with (2 := Ec).
+      intros f Hf. unfold rp_theory in Hf. apply in_map_iff in Hf. destruct Hf as [f0 [<- Hf0]].
+      destruct (tau_star_psent p g Hp Eg f0 Hf0) as [A B]. split; [apply rp_formula_pi, A|].
+      apply closed_iff in B. unfold bn. rewrite rp_bn. apply B.
+    - unfold missing_output_definitions in Hd. apply in_map_iff in Hd. destruct Hd as [q [<- _]].
+      apply empty_definition_psent. }
   destruct (et_simplify t).
   - intros Hs [= <-] f Hf. apply in_map_iff in Hf. destruct Hf as [F [<- HF]].
     destruct (simplify_status_done fuel th1 Hs F HF) as [G EG].
